@@ -262,6 +262,11 @@ def check_c12(prog, rep, tier, cfg):
             # base indentation = leading blanks of the last line of this literal
             rep.check("count_leading_whitespace(" in a[3] and re.search(r"last\((lines|lines_custom)\(get_content\(", a[3]) is not None, R, "base=leading-blanks-of-last-line",
                       "base indentation is not last_line[0..count_leading_whitespace(last_line)]: %s" % a[3])
+    # C12.k — "otherwise the literal is reproduced byte for byte": the output step writes every token's text as it is, once (shared with
+    # C01.a) — only the string formatter, under its own tests, replaces the text of a literal
+    import text as _text12
+    from engine import AliasReport as _AR12
+    _text12.check_c01(prog, _AR12(rep, [("C01.a", r".", "C12.k")]), tier, cfg)
     # C12.j — the literal the string formatter is handed ends with its closing quotes (shared with C13.j)
     import lexer_rules as _lxr
     _lxr.c13j(prog, rep, "C12.j")
